@@ -1,209 +1,83 @@
-import InTotoModel.Lemmas.Verify
-import InTotoModel.Lemmas.JsonOrder
+import InTotoModel.Lemmas.Determinism
+import InTotoModel.Lemmas.NoPanic
 /-
   C13 — The verification verdict is a deterministic function of its inputs.
 
   Every `HashMap` iteration in `verifylib.rs` / `Metablock::verify` is a parameter of the model
-  (`ord.perm site`, any rearrangement).  The full statement is `C13_Full` below.  Proved so far, for
-  all inputs: the three places where the code *chooses* or *stops early* depending on iteration
-  order give order-independent results — signature counting with its early exit
-  (`c13_block_verdict_order_independent`), the agreement check with its arbitrary reference link
-  (`c13_agreement_order_independent`), and the choice of a step's representative link
-  (`c13_representative_order_independent`; before the `fix:` commit 269e874 this was
-  `values().last()`, whose order dependence is recorded in `c13_former_choice_order_dependent`).
-  Not yet a theorem: the composition through all twelve stages (`C13_Full`); the driver evaluates
-  every scenario under two opposite iteration orders and the harness repeats the real run with fresh
-  hash seeds.
+  (`ord.perm site`; `ord.Valid`: each instance returns a rearrangement of its argument, nothing
+  else is assumed).  `c13_full` is the whole statement: for any two valid families of orders,
+  any environment (key ids, signature validity, clock, inspection outcomes), fuel, layout block,
+  caller keys, link directory and name, verification succeeds under one iff it succeeds under the
+  other, with the same summary link.  With `c13_failure_is_an_error` (no run ends in a panic) the
+  other verdict, failure, is order independent too.  What may depend on the order is *which*
+  failing sub-layout is met first - hence which inspections of sibling sub-layouts have already
+  run when the run fails - not the verdict.
+
+  The three places where the code *chooses* or *stops early* depending on the order are stated
+  separately: signature counting with its early exit, the agreement check with its arbitrary
+  reference link, and the choice of a step's representative link (before the `fix:` commit 269e874
+  this was `values().last()`; `c13_former_choice_order_dependent` records that order dependence).
+
+  Proof (Lemmas/Determinism.lean): each loop equals an order-free description (a filter for the
+  threshold stage, all-or-nothing maps for the sub-layout and reduction stages, an all-pairs
+  formulation of agreement); the tables of two runs are related by "same keys, values up to
+  permutation"; every later stage reads a table through `lookup` only.
 -/
 namespace InToto.Verify
 open InToto.Threshold InToto.Json
 
 variable {K : Type}
 
-/-- The full statement: for any two families of iteration orders the result (verdict and, on
-    success, the summary link) is the same. -/
-def C13_Full (K : Type) : Prop :=
-  ∀ (env : Env K) (ord ord' : Ord), ord.Valid → ord'.Valid →
-    ∀ fuel path (b : Block K) keys dir name,
-      (verify env ord fuel path b keys dir name).1 = (verify env ord' fuel path b keys dir name).1
+/-- **Full statement.**  Success and the summary link do not depend on any hash-map iteration order. -/
+theorem c13_full (env : Env K) (ord ord' : Ord) (h : ord.Valid) (h' : ord'.Valid)
+    (fuel : Nat) (path : List Str) (b : Block K) (keys : List K) (dir : Dir K) (name : Str) (s : Link) :
+    (verify env ord fuel path b keys dir name).1 = .ok s ↔ (verify env ord' fuel path b keys dir name).1 = .ok s := by
+  rw [← okPart_eq_some, ← okPart_eq_some, verify_order_independent env ord ord' h h']
+
+/-- Failure is order independent as well: a run that does not succeed ends in an error, never in a
+    panic, and it fails under one order iff it fails under the other. -/
+theorem c13_failure_is_an_error (env : Env K) (ord ord' : Ord) (h : ord.Valid) (h' : ord'.Valid)
+    (fuel : Nat) (path : List Str) (b : Block K) (keys : List K) (dir : Dir K) (name : Str) :
+    (∃ c, (verify env ord fuel path b keys dir name).1 = .err c) ↔
+      (∃ c, (verify env ord' fuel path b keys dir name).1 = .err c) := by
+  have key : ∀ (o o' : Ord), o.Valid → o'.Valid →
+      (∃ c, (verify env o fuel path b keys dir name).1 = .err c) →
+      (∃ c, (verify env o' fuel path b keys dir name).1 = .err c) := by
+    intro o o' ho ho' ⟨c, hc⟩
+    cases hr : (verify env o' fuel path b keys dir name).1 with
+    | err c' => exact ⟨c', rfl⟩
+    | panic s => exact absurd hr (verify_no_panic env o' ho' fuel path b keys dir name s)
+    | ok s =>
+      have := (c13_full env o o' ho ho' fuel path b keys dir name s).mpr hr
+      rw [hc] at this; cases this
+  exact ⟨key ord ord' h h', key ord' ord h' h⟩
 
 /-- Signature-threshold verification of a block does not depend on the iteration order. -/
 theorem c13_block_verdict_order_independent (env : Env K) (ord ord' : Ord) (h : ord.Valid) (h' : ord'.Valid)
     (b : Block K) (t : Nat) (auth : List K) :
-    verifyBlockK env ord b t auth = verifyBlockK env ord' b t auth := by
-  unfold verifyBlockK verifyBlock
-  rw [c04_order_independent env.kidOf _ (ord.perm 0) (ord'.perm 0) (h 0 _) (h' 0 _)]
-
-theorem minEntry_mem {α : Type} {l : List (Str × α)} {m : Str × α} (h : minEntry l = some m) : m ∈ l := by
-  induction l generalizing m with
-  | nil => simp [minEntry] at h
-  | cons e r ih =>
-    simp only [minEntry] at h
-    split at h
-    · cases h; simp
-    · rename_i m' hm'
-      split at h
-      · cases h; exact List.mem_cons_of_mem _ (ih hm')
-      · cases h; simp
-
-theorem minEntry_le {α : Type} {l : List (Str × α)} {m : Str × α} (h : minEntry l = some m) :
-    ∀ e ∈ l, strLt e.1 m.1 = false := by
-  induction l generalizing m with
-  | nil => simp
-  | cons e r ih =>
-    simp only [minEntry] at h
-    split at h
-    · rename_i hnone
-      cases h
-      have : r = [] := by
-        cases r with
-        | nil => rfl
-        | cons x xs => exact absurd hnone (minEntry_ne_none (by simp))
-      subst this
-      intro x hx
-      simp at hx; subst hx
-      exact strLt_irrefl _
-    · rename_i m' hm'
-      have ihm := ih hm'
-      split at h
-      · rename_i hlt
-        cases h
-        intro x hx
-        simp only [List.mem_cons] at hx
-        rcases hx with rfl | hx
-        · exact strLt_asymm hlt
-        · exact ihm x hx
-      · rename_i hnlt
-        cases h
-        intro x hx
-        simp only [List.mem_cons] at hx
-        rcases hx with rfl | hx
-        · exact strLt_irrefl _
-        · cases hx' : strLt x.1 e.1 with
-          | false => rfl
-          | true =>
-            exfalso
-            have h1 := ihm x hx
-            have hnlt' : strLt m'.1 e.1 = false := by simpa using hnlt
-            cases hc : strLt e.1 m'.1 with
-            | true => rw [strLt_trans hx' hc] at h1; cases h1
-            | false =>
-              have : e.1 = m'.1 := strLt_total hc hnlt'
-              rw [this] at hx'
-              rw [hx'] at h1; cases h1
+    verifyBlockK env ord b t auth = verifyBlockK env ord' b t auth :=
+  verifyBlockK_order_independent env ord ord' h h' b t auth
 
 /-- The representative link of a step (the entry with the smallest key id) does not depend on the
     order in which the step's links are enumerated. -/
 theorem c13_representative_order_independent {α : Type} {l l' : List (Str × α)} (hp : l.Perm l')
-    (hnd : (l.map Prod.fst).Nodup) : minEntry l = minEntry l' := by
-  have hnd' : (l'.map Prod.fst).Nodup := (hp.map Prod.fst).nodup_iff.mp hnd
-  cases h : minEntry l with
-  | none =>
-    have : l = [] := by
-      cases l with
-      | nil => rfl
-      | cons x xs => exact absurd h (minEntry_ne_none (by simp))
-    subst this
-    have : l' = [] := hp.symm.eq_nil
-    subst this
-    rfl
-  | some m =>
-    cases h' : minEntry l' with
-    | none =>
-      have : l' = [] := by
-        cases l' with
-        | nil => rfl
-        | cons x xs => exact absurd h' (minEntry_ne_none (by simp))
-      subst this
-      have := hp.eq_nil
-      subst this
-      simp [minEntry] at h
-    | some m' =>
-      have hm := minEntry_mem h
-      have hm' := minEntry_mem h'
-      have h1 := minEntry_le h m' (hp.mem_iff.mpr hm')
-      have h2 := minEntry_le h' m (hp.mem_iff.mp hm)
-      have hk : m.1 = m'.1 := strLt_total h2 h1
-      have : m = m' := by
-        have e1 := lookup_of_mem hnd hm
-        have e2 := lookup_of_mem hnd (hp.mem_iff.mpr hm')
-        rw [hk] at e1
-        rw [e1] at e2
-        cases m; cases m'
-        simp only at hk e2
-        subst hk
-        cases e2
-        rfl
-      rw [this]
+    (hnd : (l.map Prod.fst).Nodup) : minEntry l = minEntry l' :=
+  minEntry_perm hp hnd
 
 /-- The agreement check compares every link with an arbitrary reference link of the step; its
     verdict does not depend on which one the iteration order happens to pick. -/
 theorem c13_agreement_order_independent (ord ord' : Ord) (h : ord.Valid) (h' : ord'.Valid)
     (links : List (Str × List (Str × Link))) (steps : List Step) :
     checkAgreement ord links steps = checkAgreement ord' links steps := by
-  induction steps with
-  | nil => rfl
-  | cons st rest ih =>
-    simp only [checkAgreement]
-    split
-    · exact ih
-    · split
-      · rfl
-      · rename_i per hper
-        split
-        · rfl
-        · -- both orders pick some element of `per` as reference
-          have key : ∀ (o : Ord), o.Valid →
-              (match (o.perm 4 per).head? with
-                | none => (Out.err 7 : Out Unit)
-                | some (_, ref) => if per.all (fun e => agree e.2 ref) then checkAgreement o links rest else .err 7)
-              = if per = [] then .err 7
-                else if per.all (fun e => per.all (fun e' => agree e.2 e'.2)) then checkAgreement o links rest else .err 7 := by
-            intro o ho
-            have hperm := ho 4 _ per
-            cases hh : (o.perm 4 per).head? with
-            | none =>
-              have : o.perm 4 per = [] := by cases hq : o.perm 4 per <;> simp_all
-              have : per = [] := by rw [this] at hperm; exact hperm.symm.eq_nil
-              simp [this]
-            | some r =>
-              obtain ⟨kid, ref⟩ := r
-              have hmem : (kid, ref) ∈ per := by
-                apply hperm.mem_iff.mp
-                cases hq : o.perm 4 per with
-                | nil => rw [hq] at hh; simp at hh
-                | cons x xs => rw [hq] at hh; simp at hh; subst hh; simp
-              have hne : per ≠ [] := by intro e; rw [e] at hmem; simp at hmem
-              simp only [hne, if_false]
-              have hiff : per.all (fun e => agree e.2 ref) = per.all (fun e => per.all (fun e' => agree e.2 e'.2)) := by
-                cases ha : per.all (fun e => agree e.2 ref) with
-                | true =>
-                  symm
-                  rw [List.all_eq_true]
-                  intro e he
-                  rw [List.all_eq_true]
-                  intro e' he'
-                  have a1 := List.all_eq_true.mp ha e he
-                  have a2 := List.all_eq_true.mp ha e' he'
-                  simp only [agree, Bool.and_eq_true, decide_eq_true_eq] at a1 a2 ⊢
-                  exact ⟨a1.1.trans a2.1.symm, a1.2.trans a2.2.symm⟩
-                | false =>
-                  symm
-                  cases hb : per.all (fun e => per.all (fun e' => agree e.2 e'.2)) with
-                  | false => rfl
-                  | true =>
-                    exfalso
-                    have : per.all (fun e => agree e.2 ref) = true := by
-                      rw [List.all_eq_true]
-                      intro e he
-                      have := List.all_eq_true.mp (List.all_eq_true.mp hb e he) (kid, ref) hmem
-                      exact this
-                    rw [this] at ha; cases ha
-              rw [hiff]
-          have k1 := key ord h
-          have k2 := key ord' h'
-          rw [ih] at k1 ⊢
-          exact k1.trans k2.symm
+  rw [checkAgreement_eq_spec ord h, checkAgreement_eq_spec ord' h']
+
+/-- The verified links of a step are the same set under any order (a permutation of each other,
+    no key id twice). -/
+theorem c13_verified_links_order_independent (env : Env K) (ord ord' : Ord) (h : ord.Valid) (h' : ord'.Valid)
+    (L : Layout K) (loaded : List (Str × List (Str × Block K))) (st : Step)
+    (hnd : ((lookup st.name loaded).getD [] |>.map Prod.fst).Nodup) :
+    (goodOf env ord L loaded st).Perm (goodOf env ord' L loaded st) :=
+  (goodOf_perm env ord ord' h h' L loaded st hnd).1
 
 /-- Recorded witness of the repaired defect: taking the *last* entry in iteration order (the former
     `values().last()`) depends on the order as soon as a step has two different links. -/
